@@ -35,9 +35,9 @@ from .. import core, wire
 from ..scen import hb
 
 LEVEL = 'exploration'
-RULE = ('exhaustive: all sequences of length <= DEPTH (quick 4, thorough 5) over the per-role alphabet (32 symbols: local send_headers in each '
-        'message role with/without END_STREAM, send_data, end_stream, reset_stream, push_stream, increment_flow_control_window, cleanup; '
-        'received HEADERS in each message role with/without END_STREAM, DATA, RST_STREAM, WINDOW_UPDATE, PUSH_PROMISE, naked CONTINUATION; '
+RULE = ('exhaustive: all sequences of length <= DEPTH (quick 4, thorough 5) over the per-role alphabet (32/33 symbols: local send_headers in each '
+        'message role with/without END_STREAM, send_data, end_stream, reset_stream, push_stream, increment_flow_control_window, stream-bound advertise_alternative_service, cleanup; '
+        'received HEADERS in each message role with/without END_STREAM, DATA, RST_STREAM, WINDOW_UPDATE, PUSH_PROMISE, ALTSVC, naked CONTINUATION; '
         'and a reduced set on the promised stream) x role x start (plain / upgraded); a connection error or a refused local action ends a branch; '
         'plus random walks of length <= 14; every node = one reaction compared with the allowed set of the reference machine; '
         'non-trivial = node where the allowed set excluded at least one reaction class the library could have produced (always true) and '
@@ -62,7 +62,7 @@ CLIENT_ALPHABET = [
     ('R_info', 'R', S), ('R_info_es', 'R', S), ('R_resp', 'R', S), ('R_resp_es', 'R', S), ('R_trailers_es', 'R', S), ('R_trailers', 'R', S),
     ('R_data', 'R', S), ('R_data_es', 'R', S), ('R_rst', 'R', S), ('R_wu', 'R', S), ('R_pp', 'R', S), ('R_cont', 'R', S),
     ('R_resp', 'R', P), ('R_resp_es', 'R', P), ('R_data_es', 'R', P), ('R_rst', 'R', P), ('L_rst', 'L', P), ('L_req', 'L', P), ('R_pp', 'R', P),
-    ('R_wu', 'R', P),
+    ('R_wu', 'R', P), ('R_altsvc', 'R', S),
 ]
 SERVER_ALPHABET = [
     ('L_resp', 'L', S), ('L_resp_es', 'L', S), ('L_info', 'L', S), ('L_info_es', 'L', S), ('L_trailers_es', 'L', S), ('L_trailers', 'L', S),
@@ -70,7 +70,7 @@ SERVER_ALPHABET = [
     ('R_req', 'R', S), ('R_req_es', 'R', S), ('R_trailers_es', 'R', S), ('R_trailers', 'R', S), ('R_data', 'R', S), ('R_data_es', 'R', S),
     ('R_rst', 'R', S), ('R_wu', 'R', S), ('R_pp', 'R', S), ('R_cont', 'R', S),
     ('L_resp', 'L', P), ('L_resp_es', 'L', P), ('L_data_es', 'L', P), ('L_rst', 'L', P), ('R_rst', 'R', P), ('R_req', 'R', P), ('R_data', 'R', P),
-    ('R_wu', 'R', P), ('L_push', 'L', P),
+    ('R_wu', 'R', P), ('L_push', 'L', P), ('L_altsvc', 'L', S),
 ]
 ALPH = {True: CLIENT_ALPHABET, False: SERVER_ALPHABET}
 STARTS = ('plain', 'upgraded')
@@ -216,6 +216,9 @@ def expect_local(m, name, sid):
         if s['state'] in ('hcr', 'resr', 'resl'):
             return ('either', lambda mm: None)
         return ('refused', None)
+    if name == 'L_altsvc':
+        # when a stream-bound advertisement is allowed is C24's question; here: whatever the outcome, the stream state is untouched
+        return ('either', lambda mm: None)
     if name == 'L_push':
         if client:
             return ('refused', None)
@@ -261,6 +264,9 @@ def expect_recv(m, name, sid):
             out.append((c, d, close_rst_sent if f == 'close_rst_sent' else f))
         return out
 
+    if name == 'R_altsvc':
+        # never an error, never a state change (RFC 7838 4: an ALTSVC frame that cannot be used is ignored)
+        return [(ACCEPT, ['AlternativeServiceAvailable'], lambda mm: None), (IGNORE, None, None)]
     if name == 'R_cont':
         return perr
     if name == 'R_pp':
@@ -426,6 +432,8 @@ def frame_for(client, name, sid):
         return wire.build_push_promise(sid, P if sid == S else P2, hb(REQ))
     if name == 'R_cont':
         return wire.build_continuation(sid, hb(TRAILERS))
+    if name == 'R_altsvc':
+        return wire.build_altsvc(sid, b'', b'h2=":8443"')
     raise ValueError(name)
 
 
@@ -450,6 +458,8 @@ def do_local(conn, name, sid):
         return conn.increment_flow_control_window(3, sid)
     if name == 'L_push':
         return conn.push_stream(sid, P if sid == S else P2, REQ)
+    if name == 'L_altsvc':
+        return conn.advertise_alternative_service(b'h2=":8443"', stream_id=sid)
     raise ValueError(name)
 
 
